@@ -132,7 +132,16 @@ func stepHistory(st *histNode, o editOp, hp *histParams) (next *histNode, what, 
 	pj := st.pj.Clone(nil)
 	before := stateKey(pj)
 	newDocs, allowed := applyModel(st.docs, o)
+	held := holdHandles(pj, st.docs, o.p)
 	apiErr, protocol := applyReal(pj, st.docs, o)
+	if protocol == "" {
+		// handles obtained before the call (an Elements of the enclosing object, an element
+		// found by key) are stale now; reading through them may return anything or an error,
+		// but must not panic
+		if s := held(); s != "" {
+			protocol = fmt.Sprintf("after %v: %s", o, s)
+		}
+	}
 	hist := append(append([]editOp(nil), st.hist...), o)
 	if protocol != "" {
 		return nil, protocol, "protocol/" + fpOp(o)
@@ -153,6 +162,70 @@ func stepHistory(st *histNode, o editOp, hp *histParams) (next *histNode, what, 
 		return nil, fmt.Sprintf("after %v: %s: %s", o, api, what), "readback/" + fpOp(o) + "/" + api
 	}
 	return &histNode{pj: pj, docs: newDocs, hist: hist, depth: st.depth + 1}, "", ""
+}
+
+// holdHandles takes handles on the value at p the way a caller would before an edit made
+// through another handle: the Elements of the enclosing object and the element FindKey
+// returns (objects), the element iterator (arrays). The returned function reads through them.
+func holdHandles(pj *simdjson.ParsedJson, docs []*ref.Node, p vpath) func() string {
+	none := func() string { return "" }
+	if len(p) < 2 {
+		return none
+	}
+	parentPath, idx := p[:len(p)-1], p[len(p)-1]
+	parent := nodeAt(docs, parentPath)
+	pit, err := navigate(pj, parentPath, 0)
+	if err != nil {
+		return none
+	}
+	var iters []*simdjson.Iter
+	var els *simdjson.Elements
+	if parent.K == ref.KObj {
+		if obj, oerr := pit.Object(nil); oerr == nil {
+			if e, perr := obj.Parse(nil); perr == nil && idx < len(e.Elements) {
+				els = e
+				iters = append(iters, &e.Elements[idx].Iter)
+			}
+		}
+		if obj, oerr := pit.Object(nil); oerr == nil {
+			if el := obj.FindKey(string(parent.Keys[idx]), nil); el != nil {
+				iters = append(iters, &el.Iter)
+			}
+		}
+	} else if it, nerr := navigate(pj, p, 1); nerr == nil {
+		iters = append(iters, it)
+	}
+	return func() (what string) {
+		defer func() {
+			if r := recover(); r != nil {
+				what = fmt.Sprintf("PANIC when reading through a handle obtained before the call: %v", r)
+			}
+		}()
+		for _, it := range iters {
+			c := *it
+			c.String()
+			c = *it
+			c.StringBytes()
+			c = *it
+			c.StringCvt()
+			c = *it
+			c.Int()
+			c = *it
+			c.Uint()
+			c = *it
+			c.Float()
+			c = *it
+			c.Bool()
+			c = *it
+			c.Interface()
+			c = *it
+			c.MarshalJSON()
+		}
+		if els != nil {
+			els.MarshalJSON()
+		}
+		return ""
+	}
 }
 
 func kindName(k ref.Kind) string {
@@ -327,6 +400,7 @@ func c13Body(w *W) {
 	w.Note(fmt.Sprintf("BFS over Set* histories to depth %d on %d seed documents x {copy,no-copy}: every value position x 9 calls x 3 navigation routes; states deduplicated on exact (Tape,Strings) bytes", hp.maxDepth, len(hp.seeds)))
 	exploreHistories(w, hp)
 	c13TopLevelNull(w)
+	c13EditThroughLookup(w)
 	w.Sample(histText(editSeeds[0], Cfg{hasAVX512, true}, []editOp{{kind: opSetNull, p: vpath{0, 1}, route: 0}, {kind: opSetStrEsc, p: vpath{0, 0}, route: 2}}))
 }
 
@@ -334,6 +408,98 @@ func c13Body(w *W) {
 // reads root, null, NOP run, closing root). The reference walkers do not model a scalar
 // document, so the oracle is differential: every other document unchanged, this one reads
 // null through Advance+MarshalJSON, and a serialize round trip in every mode reads the same.
+// c13EditThroughLookup: Object.Parse, then Set* through the element Elements.Lookup returns
+// (a pointer into the Elements), then reading through the SAME Elements: the member read by
+// index and Elements.MarshalJSON must show the new value (the usual "find it, change it,
+// write the object out" sequence).
+func c13EditThroughLookup(w *W) {
+	w.Note("edits through Elements.Lookup: for every object with unique keys of every seed, every member x 9 Set* calls: Object.Parse; Lookup(key).Iter.Set*(...); the same Elements read by index and marshalled must show the new value")
+	for _, seed := range editSeeds {
+		if seed.deser {
+			continue
+		}
+		for _, c := range strModes() {
+			text := []byte(seed.text)
+			var docs []*ref.Node
+			if seed.nd {
+				docs, _ = ref.ParseND(text)
+			} else {
+				d, _ := ref.Parse(text)
+				docs = []*ref.Node{d}
+			}
+			base, err, p := doParse(c, append([]byte(nil), text...), nil, seed.nd)
+			if err != nil || p != "" {
+				continue
+			}
+			for _, cp := range containerPositions(docs) {
+				n := nodeAt(docs, cp)
+				if n.K != ref.KObj || !uniqueKeys(n) {
+					continue
+				}
+				for idx := range n.Elems {
+					for kind := 0; kind < nSetOps; kind++ {
+						w.res.States++
+						if !w.Mine() {
+							continue
+						}
+						o := editOp{kind: kind, p: append(append(vpath(nil), cp...), idx), route: (idx + kind) % 3}
+						if !setAllowed(kind, n.Elems[idx].K) {
+							continue
+						}
+						w.res.Transitions++
+						w.res.Evaluations++
+						w.res.Validated++
+						bad := func() (bad string) {
+							defer func() {
+								if r := recover(); r != nil {
+									bad = fmt.Sprintf("PANIC: %v", r)
+								}
+							}()
+							pj := base.Clone(nil)
+							it, nerr := navigate(pj, cp, 0)
+							if nerr != nil {
+								return "navigate: " + nerr.Error()
+							}
+							obj, oerr := it.Object(nil)
+							if oerr != nil {
+								return "Object(): " + oerr.Error()
+							}
+							els, perr := obj.Parse(nil)
+							if perr != nil {
+								return "Object.Parse: " + perr.Error()
+							}
+							el := els.Lookup(string(n.Keys[idx]))
+							if el == nil {
+								return "Lookup returned nil for an existing member"
+							}
+							if serr := applySet(&el.Iter, o); serr != nil {
+								return "Set* through the looked-up element failed: " + serr.Error()
+							}
+							want := setValueNodeOp(o)
+							wk := &walker{budget: 1 << 16}
+							got, rerr := wk.value(&els.Elements[idx].Iter)
+							if rerr != nil || got.Render() != want.Render() {
+								return fmt.Sprintf("member %q read through the same Elements after the edit: %v (%v), new value is %s", n.Keys[idx], got, rerr, want.Render())
+							}
+							nn := n.Clone()
+							nn.Elems[idx] = want
+							out, merr := els.MarshalJSON()
+							back, ok := parseAnyValue(out)
+							if merr != nil || !ok || !ref.NumericEqual(nn, back) {
+								return fmt.Sprintf("Elements.MarshalJSON after the edit gives %s (%v), object is %s", clip(string(out)), merr, clip(nn.RenderNumeric()))
+							}
+							return ""
+						}()
+						if bad != "" {
+							w.Violate(Violation{Harness: "C13-edit-through-lookup", Fingerprint: "C13/edit-through-lookup/" + setNames[kind], What: fmt.Sprintf("%v through Elements.Lookup(%q): %s", o, n.Keys[idx], bad), Case: []byte(seed.name), CaseText: histText(seed, c, []editOp{o}), Config: c.String()})
+						}
+					}
+				}
+			}
+		}
+	}
+}
+
 func c13AdvanceIntoWalk(pj *simdjson.ParsedJson) (what string) {
 	defer func() {
 		if r := recover(); r != nil {
